@@ -449,7 +449,7 @@ func c08Cases(thorough bool) []c08Case {
 	recvProtos := []string{"http-json", "http-proto", "http-body", "http-json-stream", "http-proto-stream", "grpc", "grpc+json", "web", "webtext", "ws"}
 	for _, p := range recvProtos {
 		for _, L := range limits {
-			for _, t := range []int{L - 1, L, L + 1, 2 * L, 64 * 1024} {
+			for _, t := range []int{L - 3, L - 2, L - 1, L, L + 1, L + 2, L + 3, 2 * L, 2*L + 1, 64 * 1024} {
 				for _, gz := range []bool{false, true} {
 					if gz && (p == "ws") {
 						continue
@@ -503,7 +503,7 @@ func c08Cases(thorough bool) []c08Case {
 
 func runC08(c *Ctx) {
 	r := c.Run
-	r.Rule("receive: protocol{HTTP unary json/proto/HttpBody, HTTP stream json/proto, gRPC (+json), gRPC-web, gRPC-web-text, WebSocket} × gzip{off,on (Content-Encoding / per-message grpc-encoding, highly compressible payload)} × limit{32,100,1000,default 4MiB} × encoded size{L-1,L,L+1,2L,64KiB} × {alone, after a small message}; send: protocol × (send limit, receive limit) pairs with S<L, S>L and defaults × reply size around S; bogus length prefixes {L+1,2^31-1,2^31,2^32-1,2^32,2^63-1,2^63,2^64-1} with a 3-byte body; distinct = (kind, protocol, gzip, limit, size class, outcome)")
+	r.Rule("receive: protocol{HTTP unary json/proto/HttpBody, HTTP stream json/proto, gRPC (+json), gRPC-web, gRPC-web-text, WebSocket} × gzip{off,on (Content-Encoding / per-message grpc-encoding, highly compressible payload)} × limit{32,100,1000,default 4MiB} × encoded size{L-3..L+3,2L,2L+1,64KiB} × {alone, after a small message}; send: protocol × (send limit, receive limit) pairs with S<L, S>L and defaults × reply size around S; bogus length prefixes {L+1,2^31-1,2^31,2^32-1,2^32,2^63-1,2^63,2^64-1} with a 3-byte body; distinct = (kind, protocol, gzip, limit, size class, outcome)")
 	r.Assume("sizes are measured in the codec used on the wire, after decompression; the message carries one string field so the size is an exact function of its length", "what happens to replies above the send limit is not part of the property")
 	cases := c08Cases(c.Thorough())
 	envs := make([]*c08Env, explore.Workers)
